@@ -142,7 +142,9 @@ Cases ==
                                                        t \in SeqsOf(Dims, 1) \cup SeqsOf(Dims, 2)} : Len(vv.shape) >= tn}}   \* the value has at least the declared tensor axes
                  : tn \in 1..2}
 
-SameLead(c) == (c.a.fe /\ c.b.fe) => Lead(c.a) = Lead(c.b)     \* both fields live on the same mesh group
+(* both fields live on the same mesh group; either may be a partial field - one value per element (Ne, 1, ...) or per Gauss *)
+(* point (1, nPg, ...) - which broadcasts along the other axis                                                              *)
+SameLead(c) == (c.a.fe /\ c.b.fe) => \A i \in 1..2 : Lead(c.a)[i] = Lead(c.b)[i] \/ Lead(c.a)[i] = 1 \/ Lead(c.b)[i] = 1
 
 Init == \E c \in Cases : SameLead(c) /\ cs = [op |-> c.op, a |-> c.a, b |-> c.b, arg |-> c.arg, res |-> Result(c.op, c.a, c.b, c.arg)]
 Next == UNCHANGED cs
@@ -152,6 +154,8 @@ Spec == Init /\ [][Next]_vars
 (* starts with the (Ne, nPg) of its field operand                                                                     *)
 TypeRule ==
     (~cs.res.err /\ cs.res.fe) =>
-        LET f == IF cs.a.fe THEN cs.a ELSE cs.b IN Len(cs.res.shape) >= 2 /\ SubSeq(cs.res.shape, 1, 2) = Lead(f)
+        LET f == IF cs.a.fe THEN cs.a ELSE cs.b
+            ld == IF cs.a.fe /\ cs.b.fe THEN Bcast(Lead(cs.a), Lead(cs.b)) ELSE Lead(f)      \* partial fields broadcast to the full (Ne, nPg)
+        IN  Len(cs.res.shape) >= 2 /\ SubSeq(cs.res.shape, 1, 2) = ld
 EmitOK == Emit => PrintT(<<"CASE", ToJson(cs)>>)
 =============================================================================
